@@ -24,7 +24,7 @@ def load_json(path, default):
 
 
 class Instance:
-    __slots__ = ("rule", "key", "desc", "status", "loc", "detail", "nontrivial")
+    __slots__ = ("rule", "key", "desc", "status", "loc", "detail", "nontrivial", "relocatable")
 
     def __init__(self, rule, key, desc, status, loc=None, detail=None, nontrivial=True):
         self.rule = rule
@@ -34,6 +34,7 @@ class Instance:
         self.loc = loc
         self.detail = detail
         self.nontrivial = nontrivial
+        self.relocatable = False
 
     def as_dict(self):
         d = {"rule": self.rule, "key": self.key, "what": self.desc, "verdict": self.status}
@@ -76,16 +77,84 @@ class Ctx:
     def incomplete(self, rule, key, desc, loc=None, detail=None):
         self.instances.append(Instance(rule, key, desc, "incomplete", loc, detail))
 
+    # -- reviewed sites that moved: a reviewed key names the function a site sits in; when a refactoring moves the very
+    #    same site into a helper (or renames the helper) the exact key no longer matches.  A candidate is then matched to
+    #    a reviewed entry of the same rule and site kind whose set of *public entry points that can reach the site* is the
+    #    same; each reviewed entry can absorb at most one moved site, so an additional site is still reported.
+    @staticmethod
+    def _key_parts(key):
+        pre = ""
+        k = key
+        for p_ in ("panic:", "obligation:"):
+            if k.startswith(p_):
+                pre, k = p_, k[len(p_):]
+        parts = k.split("|")
+        if len(parts) < 2:
+            return None
+        fn, rest = parts[0], parts[1:]
+        if rest and rest[-1].isdigit():
+            rest = rest[:-1]
+        return pre, fn, tuple(rest)
+
+    def _roots_of(self, fn_short):
+        if not hasattr(self, "_roots_cache"):
+            self._roots_cache = {}
+        if fn_short not in self._roots_cache:
+            roots = None
+            try:
+                from .panics import public_api, reachable_from
+                b = self.prog.find(fn_short)
+                if b is not None:
+                    roots = tuple(sorted(a.short for a in public_api(self.prog) if b.id in set(x.id for x in reachable_from(self.prog, [a]))))
+            except Exception:
+                roots = None
+            self._roots_cache[fn_short] = roots
+        return self._roots_cache[fn_short]
+
     def reviewed_or_violation(self, rule, key, desc, loc=None, detail=None):
         full = "%s|%s" % (rule, key)
         if any(i.rule == rule and i.key == key for i in self.instances):
             return
         r = self.reviewed.get(full)
         if r is not None:
+            if not hasattr(self, "_exact_used"):
+                self._exact_used = set()
+            self._exact_used.add(full)
             self.instances.append(Instance(rule, key, desc + "  [reviewed: %s]" % r["reason"], "reviewed", loc, detail))
             self.assumptions.append("reviewed site %s: %s" % (full, r["reason"]))
         else:
+            n0 = len(self.instances)
             self.violation(rule, key, desc, loc, detail)
+            for i in self.instances[n0:]:
+                if i.status == "violation":
+                    i.relocatable = True
+
+    def finish_reviews(self):
+        """second chance for sites that moved (see above): unmatched candidates against reviewed entries that no exact key used"""
+        used = set(getattr(self, "_exact_used", set()))
+        for i in self.instances:
+            if i.status != "violation" or not getattr(i, "relocatable", False):
+                continue
+            kp = self._key_parts(i.key)
+            if kp is None:
+                continue
+            pre, fn, rest = kp
+            roots = self._roots_of(fn)
+            if not roots:
+                continue
+            for rk, r in self.reviewed.items():
+                if rk in used or not rk.startswith(i.rule + "|"):
+                    continue
+                rp = self._key_parts(rk[len(i.rule) + 1:])
+                if rp is None or rp[0] != pre or rp[2] != rest:
+                    continue
+                rroots = tuple(r.get("roots") or ()) or (self._roots_of(rp[1]) or ())
+                if tuple(rroots) == tuple(roots):
+                    used.add(rk)
+                    i.status = "reviewed"
+                    i.desc = i.desc + "  [site moved: matched to the reviewed entry %s by rule, kind and reaching entry points; reviewed: %s]" % (rk, r["reason"])
+                    self.assumptions.append("reviewed site (moved) %s: %s" % (rk, r["reason"]))
+                    break
 
     def check(self, cond, rule, key, desc, loc=None, detail=None, bad_desc=None):
         if cond:
@@ -153,6 +222,11 @@ def run_check(pid, rules, tier="quick", level="other", explanation="", trusted_b
         tool_error = str(e)
     wall = time.time() - t0
 
+    if ctx:
+        try:
+            ctx.finish_reviews()
+        except Exception as e:      # never let the second-chance matching hide or invent results
+            ctx.notes.append("finish_reviews failed: %s" % e)
     insts = ctx.instances if ctx else []
     viol = [i for i in insts if i.status == "violation"]
     inc = [i for i in insts if i.status == "incomplete"]
